@@ -16,7 +16,7 @@ RULE = ("Hypothesis-generated OMEN models (n-gram 2..5, alphabet 2-4 symbols inc
         "written to disk and loaded with the real load_rules. Part levels: every level 0..12 with a fresh optimizer. Part "
         "cache_histories: a Hypothesis RuleBasedStateMachine shares one Optimizer over a generated sequence of operations "
         "generate(level) / generate_partial(level, j) / fresh_optimizer / change_cache_length. Oracle: an independent DFS "
-        "enumerator (pv/omen_ref.py): emitted list has no duplicates, its set equals the reference set, then None is reported. "
+        "enumerator (pv/omen_ref.py): emitted list has no duplicates, its set equals the reference set, then None is reported; in cache_histories the emitted SEQUENCE (and every abandoned run's prefix) must also equal what a generator with an empty cache emits - a resumed session continues by position with an empty cache. "
         "Non-trivial = the level has >=2 strings, one of length >= n+1, and the model has a dead-end or unaffordable context; "
         "distinct = hash of (model, level, history position).")
 ASSUMPTIONS = ["every IP / CP n-gram is listed once (the trainer's format)", "at least one IP and one length have a level below 10",
@@ -215,6 +215,14 @@ def make_machine(rec):
             self.ref_model = omen_ref.from_model_dict(om)
             self.opt = Optimizer(max_length=ml)
             self.feat = model_features(om)
+            self.fresh = {}
+
+        def fresh_sequence(self, level, nref):
+            # what a generator with an EMPTY cache emits for this level, in its order: a resumed session starts with an empty
+            # cache and continues by position, so the order may not depend on the cache either
+            if level not in self.fresh:
+                self.fresh[level] = drain(self.case(), self.grammar, level, Optimizer(max_length=4), nref=nref)[0]
+            return self.fresh[level]
 
         @rule(level=st.integers(0, 12))
         def generate(self, level):
@@ -231,6 +239,11 @@ def make_machine(rec):
             rec.case({'ops': self.ops[-6:], 'n': len(ref)}, nontriv, ['history_generate', f'history_len>={min(len(self.ops), 8)}'],
                      key=[self.om, self.ops])
             compare(self.case(), level, got, ref, f'after history {self.ops[:-1][-6:]},')
+            fresh = self.fresh_sequence(level, len(ref))
+            if got != fresh:
+                k = next(i for i, (a, b) in enumerate(zip(got, fresh)) if a != b)
+                raise Violation('order_depends_on_cache', f'level {level} after history {self.ops[:-1][-6:]}: same strings as with an empty cache but in another '
+                                f'order, first difference at position {k}: {got[k:k + 3]} vs {fresh[k:k + 3]}', self.case())
 
         @rule(level=st.integers(0, 12), j=st.integers(1, 12))
         def generate_partial(self, level, j):
@@ -246,6 +259,10 @@ def make_machine(rec):
             rec.case({'ops': self.ops[-6:]}, False, ['history_partial'], key=[self.om, self.ops])
             if len(set(got)) != len(got) or not set(got) <= set(ref):
                 raise Violation('partial_prefix', f'abandoned run of level {level} after {j}: {got} is not a duplicate-free subset of the level', self.case())
+            fresh = self.fresh_sequence(level, len(ref))
+            if got != fresh[:j]:
+                raise Violation('order_depends_on_cache', f'abandoned run of level {level} after {j} with history {self.ops[:-1][-6:]}: {got} is not how a generator with an '
+                                f'empty cache starts the level: {fresh[:j]}', self.case())
 
         @rule(ml=st.sampled_from([4, 2, 1, 3]))
         def fresh_optimizer(self, ml):
@@ -273,6 +290,8 @@ def replay_history(case, rec):
                 continue
             got, _ = drain(case, grammar, op[1], opt, nref=len(ref))
             compare(case, op[1], got, ref, 'replayed history,')
+            if got != drain(case, grammar, op[1], Optimizer(max_length=4), nref=len(ref))[0]:
+                raise Violation('order_depends_on_cache', f'level {op[1]}: order differs from a generator with an empty cache', case)
         elif op[0] == 'partial':
             if omen_ref.search_space(ref_model, op[1], cap=SEARCH_CAP) > SEARCH_CAP:
                 continue
@@ -282,6 +301,8 @@ def replay_history(case, rec):
             got, _ = drain(case, grammar, op[1], opt, stop_after=op[2], nref=len(ref))
             if len(set(got)) != len(got) or not set(got) <= set(ref):
                 raise Violation('partial_prefix', f'abandoned run of level {op[1]}: {got}', case)
+            if got != drain(case, grammar, op[1], Optimizer(max_length=4), nref=len(ref))[0][:op[2]]:
+                raise Violation('order_depends_on_cache', f'abandoned run of level {op[1]}: {got} is not how a generator with an empty cache starts the level', case)
 
 
 def run_histories(rec, seed, shard, nshards, tier):
